@@ -6,7 +6,7 @@ EXPLANATION = (
     "Clause table. PROVED (pyvc, unbounded in mode count / ancilla count / list length): Circuit._map_mode returns the mode-th user-visible "
     "full mode (not an ancilla; exactly k ancillas below it) for every set of distinct internal modes [loop invariant with ghost rank k, "
     "sorted() contract with index maps]; Circuit.herald maps input and output modes with _map_mode (short form: same mode for both), writes the four herald maps, "
-    "raises TypeError / ModeRangeError / ValueError exactly under the stated conditions and changes nothing when it raises. BOUNDED (mechanism C, exhaustive, labelled bounded, never counted as proved): the contract of "
+    "raises TypeError / ModeRangeError / ValueError exactly under the stated conditions and changes nothing when it raises; Circuit._add_empty_mode increases the mode count by one and shifts every key of the four herald maps and every internal mode by [x >= mode], keeping values and the insertion order of the maps (which pairs input with output heralds). BOUNDED (mechanism C, exhaustive, labelled bounded, never counted as proved): the contract of "
     "Circuit.add itself - ModeRangeError iff the visible span is too short; otherwise U_full, heralds, internal modes, n_modes and "
     "input_modes of the result equal the composition wire(P,S,m) built from the statement (new ancillas located by search), old ancillas "
     "untouched; argument unchanged - over every history of <=1 earlier heralded addition and one checked addition, parents <=3 (quick) / "
